@@ -214,7 +214,7 @@ pub fn chk_pulls(cx: &Ctx) -> Vec<Viol> {
     if !cx.case.src.wrapped() || cx.case.endless {
         return vs;
     }
-    let n = cx.obs.eff_input.len() as i64;
+    let n = if cx.obs.eff_input.is_empty() { cx.case.input.len() as i64 } else { cx.obs.eff_input.len() as i64 };
     let mut ranges: Vec<(i64, i64, u16)> = Vec::new();
     let mut total = 0i64;
     for e in &cx.obs.rec.log {
@@ -492,7 +492,7 @@ pub fn chk_exact(cx: &Ctx) -> Vec<Viol> {
     if cx.seq || chains::INFO[cx.case.chain].2 != 0 || cx.case.cs[1..].iter().any(|x| *x != hcore::settings::CsSet::Keep) {
         return vs; // eager stages pull under the parameters set so far: judged by their own cases
     }
-    let n = cx.obs.eff_input.len() as i64;
+    let n = if cx.obs.eff_input.is_empty() { cx.case.input.len() as i64 } else { cx.obs.eff_input.len() as i64 };
     if cx.case.src.wrapped() {
         let mut short = Vec::new();
         for e in &cx.obs.rec.log {
